@@ -358,7 +358,10 @@ func chance(t *rapid.T, label string, num, den int) bool {
 // small pool, weighted: the same name must recur at different depths. "body",
 // "request", "response" are included because the '$.request.body…' notation is
 // only a string prefix of the cursor notation.
-var keyPool = []string{"a", "a", "a", "b", "b", "name", "name", "name", "user", "user", "id", "body", "body", "request", "response", "items"}
+// The pool repeats names so that one name recurs at several depths, and contains names that are string
+// prefixes/extensions of each other (a/ab, user/username/users, id/ids/id_token, name/name2) so that an
+// exclusion is also tried against sibling keys that merely start or end like the excluded one.
+var keyPool = []string{"a", "a", "a", "b", "b", "ab", "name", "name", "name", "name2", "user", "user", "username", "users", "id", "ids", "id_token", "body", "body", "request", "response", "items"}
 
 var valueRunes = []rune{'a', 'b', 'Z', '0', '7', ' ', '.', '[', ']', '$', '"', '\\', '/', '\n', '\t', '\u0001', 'é', 'ß', '日', '😀', '<', '&', ' '}
 
@@ -569,8 +572,19 @@ func genCursorExclusions(t *rapid.T, doc *node, label string) []string {
 			for j := 0; j < l; j++ {
 				segs = append(segs, poolSeg(fmt.Sprintf("%s-free%d", tag, j)))
 			}
-		case s < 19: // an existing cursor with one more segment
+		case s < 18: // an existing cursor with one more segment
 			segs = append(append([]string(nil), pickSegs(tag+"-node")...), poolSeg(tag+"-post"))
+		case s < 19: // a textual neighbour of an existing cursor: its last key shortened or lengthened, so the
+			// exclusion is a string prefix (or extension) of a real cursor while naming a different key
+			segs = append([]string(nil), pickSegs(tag+"-node")...)
+			if n := len(segs); n > 0 && segs[n-1] != segArr {
+				last := segs[n-1]
+				if len(last) > 2 && rapid.Bool().Draw(t, tag+"-shorten") {
+					segs[n-1] = last[:len(last)-rapid.IntRange(1, len(last)-2).Draw(t, tag+"-cut")]
+				} else {
+					segs[n-1] = last + rapid.SampledFrom([]string{"s", "_token", "2", "name"}).Draw(t, tag+"-ext")
+				}
+			}
 		default: // not a cursor at all (obfuscate_test.go: "qui" excludes nothing)
 			out = append(out, rapid.SampledFrom([]string{"qui", "name", "a"}).Draw(t, tag+"-junk"))
 			continue
